@@ -19,6 +19,7 @@ type joinScenario struct {
 	icap       int
 	closeAfter time.Duration
 	stopAt     time.Duration
+	capExtra   int
 	prod       [][2]int64 // (delay, len)
 	cons       [][2]int64 // (hold, pause)
 }
@@ -34,7 +35,8 @@ func decodeJoin(sc scenario) joinScenario {
 		closeAfter: time.Duration(sc.i64(7)),
 		stopAt:     time.Duration(sc.i64(8)),
 	}
-	pos := 10
+	js.capExtra = sc.int(10)
+	pos := 11
 	n := sc.int(pos)
 	for i := 0; i < n; i += 2 {
 		js.prod = append(js.prod, [2]int64{sc.i64(pos + 1 + i), sc.i64(pos + 2 + i)})
